@@ -232,6 +232,7 @@ static std::string write_replay(const Violation& v, const Plan& minimal, int rer
     doc.set("seed", js::Value(int64_t(v.plan.seed)));
     doc.set("index", js::Value(v.plan.index));
     doc.set("flavour", SIM_FLAVOUR);
+    if (const char* rg = std::getenv("VERIF_RANDOM_GRAMMARS")) if (*rg) doc.set("random_grammars", std::string(rg));
     doc.set("shrink_reruns", reruns);
     doc.set("history_hash", js::Value(int64_t(hash & 0x7fffffffffffffffull)));
     doc.set("plan", to_json(minimal));
